@@ -115,3 +115,9 @@ func cleanKeyPath(p string) bool {
 	}
 	return true
 }
+
+// errUnsupportedKey is returned for keys the filesystem backends cannot store
+// without aliasing another path: see cleanKeyPath.
+func errUnsupportedKey(key string) error {
+	return gofakes3.ErrorMessagef(gofakes3.ErrInvalidArgument, "key %q is not supported by this backend: empty, '.' and '..' path segments cannot be stored", key)
+}
